@@ -136,6 +136,8 @@ static void ro_phase(int n, int G) {
 // ---- routing -------------------------------------------------------------------------------
 typedef geo::Poly Poly;
 static void sym(int k, double x, double y, double &ox, double &oy) { switch (k) { case 0: ox = x; oy = y; break; case 1: ox = -y; oy = x; break; case 2: ox = -x; oy = -y; break; case 3: ox = y; oy = -x; break; case 4: ox = -x; oy = y; break; case 5: ox = x; oy = -y; break; case 6: ox = y; oy = x; break; default: ox = -y; oy = -x; } }
+static unsigned g_srcDir = 15;   // visibility directions of every connector's SOURCE end in the base frame (mapped under the symmetries)
+static unsigned symdir(int k, unsigned d) { unsigned r = 0; static const int VX[4] = {0, 0, -1, 1}, VY[4] = {-1, 1, 0, 0}; /* Up, Down, Left, Right */ for (int b = 0; b < 4; b++) if (d >> b & 1) { double ox, oy; switch (k) { case 0: ox = VX[b]; oy = VY[b]; break; case 1: ox = -VY[b]; oy = VX[b]; break; case 2: ox = -VX[b]; oy = -VY[b]; break; case 3: ox = VY[b]; oy = -VX[b]; break; case 4: ox = -VX[b]; oy = VY[b]; break; case 5: ox = VX[b]; oy = -VY[b]; break; case 6: ox = VY[b]; oy = VX[b]; break; default: ox = -VY[b]; oy = -VX[b]; } r |= oy < 0 ? 1u : oy > 0 ? 2u : ox < 0 ? 4u : 8u; } return r; }
 static int g_params = 0;   // 0 defaults; 1 reverseDirectionPenalty + crossingPenalty; 2 anglePenalty + fixedSharedPathPenalty + shapeBufferDistance
 static void route_scene(const vector<Poly> &sc, const vector<pair<geo::P, geo::P>> &eps, bool ortho, int symk, double tx, double ty, Sig &out, bool cost) {
     const int S = 10; Avoid::Router *r = new Avoid::Router(ortho ? Avoid::OrthogonalRouting : Avoid::PolyLineRouting); r->setRoutingParameter(Avoid::segmentPenalty, ortho ? 20 : 0);
@@ -145,7 +147,7 @@ static void route_scene(const vector<Poly> &sc, const vector<pair<geo::P, geo::P
     for (auto &sh : sc) { Avoid::Polygon pg(sh.v.size()); vector<Avoid::Point> pts; for (auto &v : sh.v) { double x, y; sym(symk, v.x * S, v.y * S, x, y); pts.push_back(Avoid::Point(x + tx, y + ty)); }
         // keep the winding libavoid expects: reflections reverse it
         if (symk >= 4) reverse(pts.begin(), pts.end()); for (size_t k = 0; k < pts.size(); k++) pg.ps[k] = pts[k]; new Avoid::ShapeRef(r, pg); }
-    vector<Avoid::ConnRef *> cs; for (auto &e : eps) { double ax, ay, bx, by; sym(symk, e.first.x * S, e.first.y * S, ax, ay); sym(symk, e.second.x * S, e.second.y * S, bx, by); cs.push_back(new Avoid::ConnRef(r, Avoid::ConnEnd(Avoid::Point(ax + tx, ay + ty)), Avoid::ConnEnd(Avoid::Point(bx + tx, by + ty)))); }
+    vector<Avoid::ConnRef *> cs; for (auto &e : eps) { double ax, ay, bx, by; sym(symk, e.first.x * S, e.first.y * S, ax, ay); sym(symk, e.second.x * S, e.second.y * S, bx, by); cs.push_back(new Avoid::ConnRef(r, Avoid::ConnEnd(Avoid::Point(ax + tx, ay + ty), (Avoid::ConnDirFlags)symdir(symk, g_srcDir)), Avoid::ConnEnd(Avoid::Point(bx + tx, by + ty)))); }
     r->processTransaction();
     for (auto c : cs) { const Avoid::PolyLine &d = ortho ? c->route() : c->displayRoute();
         if (cost) { double l = 0; for (size_t i = 1; i < d.size(); i++) l += ortho ? fabs(d.ps[i].x - d.ps[i - 1].x) + fabs(d.ps[i].y - d.ps[i - 1].y) : hypot(d.ps[i].x - d.ps[i - 1].x, d.ps[i].y - d.ps[i - 1].y); int b = 0; for (size_t i = 2; i < d.size(); i++) { bool col = (d.ps[i - 2].x == d.ps[i - 1].x && d.ps[i - 1].x == d.ps[i].x) || (d.ps[i - 2].y == d.ps[i - 1].y && d.ps[i - 1].y == d.ps[i].y); if (!col) b++; } out.add(l + (ortho ? 20 * b : 0)); }
@@ -153,9 +155,9 @@ static void route_scene(const vector<Poly> &sc, const vector<pair<geo::P, geo::P
     delete r;
 }
 static void routing_phase(int G, int k, bool ortho, int params = 0) {
-    g_params = params;
+    g_params = params; g_srcDir = params == 4 ? 2u : params == 5 ? 8u : params == 6 ? 4u : params == 7 ? 1u : 15u;   // 4-7: the source end may only be left downwards / to the right / to the left / upwards
     vector<Poly> alpha; for (int x0 = 0; x0 < G; x0++) for (int x1 = x0 + 1; x1 <= G; x1++) for (int y0 = 0; y0 < G; y0++) for (int y1 = y0 + 1; y1 <= G; y1++) { alpha.push_back(geo::rect(x0, y0, x1, y1)); if (!ortho) { Poly t; t.v = {{x1, y0}, {x1, y1}, {x0, y0}}; alpha.push_back(t); } }
-    ctx.phase(mcx::fmt("%s routing G=%d shapes=%d parameters=%s: 4 heap schedules, 3 translations, 8 symmetries", ortho ? "orthogonal" : "polyline", G, k, params == 0 ? "defaults" : params == 1 ? "reverseDirectionPenalty" : params == 2 ? "anglePenalty" : "crossingPenalty+fixedSharedPathPenalty"));
+    ctx.phase(mcx::fmt("%s routing G=%d shapes=%d parameters=%s: 4 heap schedules, 3 translations, 8 symmetries", ortho ? "orthogonal" : "polyline", G, k, params == 0 ? "defaults" : params == 1 ? "reverseDirectionPenalty" : params == 2 ? "anglePenalty" : params == 3 ? "crossingPenalty+fixedSharedPathPenalty" : params == 4 ? "source ends ConnDirDown" : params == 5 ? "source ends ConnDirRight" : params == 6 ? "source ends ConnDirLeft" : "source ends ConnDirUp"));
     vector<int> idx(k); for (int i = 0; i < k; i++) idx[i] = i;
     do { bool ok = true; for (int i = 0; i < k; i++) for (int j = i + 1; j < k; j++) { if (ortho) { geo::R a{(int)alpha[idx[i]].v[3].x, (int)alpha[idx[i]].v[0].y, (int)alpha[idx[i]].v[0].x, (int)alpha[idx[i]].v[1].y}, b{(int)alpha[idx[j]].v[3].x, (int)alpha[idx[j]].v[0].y, (int)alpha[idx[j]].v[0].x, (int)alpha[idx[j]].v[1].y}; if (!(a.x1 + 1 <= b.x0 || b.x1 + 1 <= a.x0 || a.y1 + 1 <= b.y0 || b.y1 + 1 <= a.y0)) ok = false; } else if (geo::interiorsOverlap(alpha[idx[i]], alpha[idx[j]])) ok = false; }
         if (!ok) continue; if (!ctx.next()) continue;
@@ -172,14 +174,14 @@ static void routing_phase(int G, int k, bool ortho, int params = 0) {
         static Sig cbase, ct; plain([&](Sig &s) { route_scene(sc, eps, ortho, 0, 0, 0, s, true); }, cbase);
         // cost invariance under the symmetries is claimed for independent connectors; crossing / shared-path penalties couple the connectors of a
         // scene and which of two equally good candidates is rerouted is (legitimately) decided by connector ids
-        for (int sk = 1; sk < 8 && params != 3; sk++) { plain([&](Sig &s) { route_scene(sc, eps, ortho, sk, 0, 0, s, true); }, ct); ctx.count("transitions");
+        for (int sk = 1; sk < 8 && params != 3 && params < 4; sk++) {   // (direction-restricted ends: only the single-connector form below) plain([&](Sig &s) { route_scene(sc, eps, ortho, sk, 0, 0, s, true); }, ct); ctx.count("transitions");
             if (!cbase.aborted && !ct.aborted) for (int i = 0; i < cbase.n; i++) if (!(fabs(cbase.v[i] - ct.v[i]) <= 1e-9)) {
                 // class: the connector shares an endpoint POSITION with another connector of the scene (coincident endpoint vertices of different
                 // connectors: which of them a visibility edge is attached to depends on the scan order, and the search skips foreign endpoints)
                 vector<string> kc; for (size_t j = 0; j < eps.size(); j++) if ((int)j != i) for (auto &q : {eps[j].first, eps[j].second}) if ((q.x == eps[i].first.x && q.y == eps[i].first.y) || (q.x == eps[i].second.x && q.y == eps[i].second.y)) { if (kc.empty()) kc.push_back("shares_endpoint_position_with_another_connector"); }
                 ctx.violation("route_cost_not_symmetry_invariant", kc, desc + mcx::fmt(" symmetry #%d", sk), mcx::fmt("connector %d cost %.17g vs %.17g", i, cbase.v[i], ct.v[i])); break; } }
         // ... and every connector ALONE in its own router (no coincident endpoints, no coupling): the clean form of the symmetry clause
-        if (params == 1 || params == 2) for (size_t i = 0; i < eps.size(); i++) { vector<pair<geo::P, geo::P>> one{eps[i]};
+        if (params == 1 || params == 2 || params >= 4) for (size_t i = 0; i < eps.size(); i++) { vector<pair<geo::P, geo::P>> one{eps[i]};
             static Sig ob, ot; plain([&](Sig &s) { route_scene(sc, one, ortho, 0, 0, 0, s, true); }, ob);
             for (int sk = 1; sk < 8; sk++) { plain([&](Sig &s) { route_scene(sc, one, ortho, sk, 0, 0, s, true); }, ot); ctx.count("transitions");
                 if (!ob.aborted && !ot.aborted && ob.n > 0 && ot.n > 0 && !(fabs(ob.v[0] - ot.v[0]) <= 1e-9)) { ctx.violation("route_cost_not_symmetry_invariant", {"single_connector"}, desc + mcx::fmt(" connector (%lld,%lld)->(%lld,%lld) alone, symmetry #%d", eps[i].first.x, eps[i].first.y, eps[i].second.x, eps[i].second.y, sk), mcx::fmt("cost %.17g vs %.17g", ob.v[0], ot.v[0])); break; } } }
@@ -240,6 +242,7 @@ int main(int argc, char **argv) {
     for (int w = 0; w < NWORK; w++) library_work(w);   // every kind of interleaved work once in system mode (lazily built statics must not live in the arena)
     g_interleave = true; vpsc_phase(2, 2); g_interleave = false; vpsc_phase(3, 2); g_interleave = true; ro_phase(2, 3); ro_phase(3, 2); g_interleave = T; ro_phase(3, 3);
     g_interleave = true; routing_phase(3, 1, false); routing_phase(3, 1, true); g_interleave = T; routing_phase(3, 2, false); routing_phase(4, 2, true); g_interleave = false;
+    for (int ps = 4; ps <= 7; ps++) { routing_phase(3, 1, true, ps); routing_phase(3, 2, true, ps); } g_srcDir = 15;   // (two-direction masks are not in the alphabet: Down|Left is routed differently from its half turn Up|Right on the unchanged tree, the direction-restricted sub-optimality of KF-C05-1..3)
     for (int ps = 1; ps <= 3; ps++) { routing_phase(3, 1, true, ps); routing_phase(3, 1, false, ps); routing_phase(3, 2, true, ps); routing_phase(3, 2, false, ps); } g_params = 0;
     g_interleave = true; pins_phase(); cola_phase(T ? 1 : 9); hola_phase(3); g_interleave = T; hola_phase(4); g_interleave = false;
     if (T) { for (int ps = 1; ps <= 2; ps++) routing_phase(4, 2, true, ps); g_params = 0; vpsc_phase(3, 3); ro_phase(4, 2); routing_phase(4, 1, false); routing_phase(4, 2, false); hola_phase(5); }
